@@ -463,3 +463,130 @@ def corr_norm(patterns, configs, nproc=16):
         if pats and len(samples) < 4:
             samples.append({'pattern': pats[len(pats) // 2], 'bytes': bool(isb), 'normalize': bool(nrm), 'raw': bool(raw)})
     return result(evals, len(nontriv), dis, samples, {'outcomes': dict(kinds)})
+
+
+# ----------------------------------------------------------------------------------------------
+# glob walker: exact result sequence, model driven by the recorded OS answers and matcher verdicts
+# ----------------------------------------------------------------------------------------------
+
+class MatchProxy:
+    def __init__(self, pid, pattern, log):
+        self.pid, self.pattern, self.log = pid, pattern, log
+
+    def match(self, name):
+        r = self.pattern.match(name) is not None
+        nm = name.decode('latin-1') if isinstance(name, bytes) else name
+        self.log[(self.pid, nm)] = r
+        return r
+
+
+class ExclProxy:
+    def __init__(self, patterns, log):
+        self.patterns, self.log = patterns, log
+
+    def fullmatch(self, name):
+        r = any(p.fullmatch(name) is not None for p in self.patterns)
+        nm = name.decode('latin-1') if isinstance(name, bytes) else name
+        self.log[nm] = r
+        return r
+
+
+def run_glob_recorded(root, patterns, flagv, exclude=None, limit=1000, timeout=10):
+    """Run wcmatch.glob.Glob(...).glob() under the recorder.  Returns dict(result | error, request for the model)."""
+    import signal
+    import trees
+    from wcmatch import glob as Gm
+    seglog, exlog = {}, {}
+
+    class Alarm(Exception):
+        pass
+
+    def onalarm(*a):
+        raise Alarm()
+    try:
+        g = Gm.Glob(patterns, flags=flagv, root_dir=root, limit=limit, exclude=exclude)
+    except Exception as e:
+        return {'error': type(e).__name__}
+    if not hasattr(g, 'npatterns'):
+        return {'result': [], 'request': None}
+    pid = 0
+    newpats = []
+    for pat in g.pattern:
+        np_ = []
+        for part in pat:
+            if part.is_magic:
+                np_.append(part._replace(pattern=MatchProxy(pid, part.pattern, seglog)) if not isinstance(part.pattern, (str, bytes)) else part)
+                pid += 1
+            else:
+                np_.append(part)
+        newpats.append(np_)
+    g.pattern = newpats
+    has_excl = bool(g.npatterns)
+    if has_excl:
+        g.npatterns = [ExclProxy(g.npatterns, exlog)]
+    with trees.FSRecorder(root) as rec:
+        old = signal.signal(signal.SIGALRM, onalarm)
+        signal.alarm(timeout)
+        try:
+            res = list(g.glob())
+            err = None
+        except Alarm:
+            res, err = None, 'TIMEOUT'
+        except RecursionError:
+            res, err = None, 'RecursionError'
+        finally:
+            signal.alarm(0)
+            signal.signal(signal.SIGALRM, old)
+    if err:
+        return {'error': err, 'scandir_calls': rec.scandir_calls}
+    res = [r.decode('latin-1') if isinstance(r, bytes) else r for r in res]
+    # request for the model
+    cfg = ''.join('1' if b else '0' for b in (g.dot, g.follow_links, g.case_sensitive, g.mark, g.nounique, g.pathlib, has_excl))
+    pid = 0
+    pl = []
+    for pat in newpats:
+        ps = []
+        for part in pat:
+            if part.is_magic and not isinstance(part.pattern, (str, bytes)):
+                ps.append('-:%d:%s' % (part.pattern.pid, ''.join('1' if b else '0' for b in (True, part.is_globstar, part.is_globstarlong, part.dir_only, part.is_drive))))
+            else:
+                txt = part.pattern.decode('latin-1') if isinstance(part.pattern, bytes) else part.pattern
+                ps.append('%s:0:%s' % (enc(txt), ''.join('1' if b else '0' for b in (part.is_magic, part.is_globstar, part.is_globstarlong, part.dir_only, part.is_drive))))
+        pl.append(','.join(ps))
+    sd = ';'.join('%s=%s' % (enc(k), 'ERR' if v is None else ','.join('%s:%s:%d' % (enc(n), 'E' if d == 'E' else int(d), int(l)) for n, d, l in v))
+                  for k, v in rec.scandirs.items()) or '[]'
+    lx = ';'.join('%s:%d' % (enc(k), int(v)) for k, v in rec.lexists.items()) or '[]'
+    sm = ';'.join('%d:%s:%d' % (i, enc(n), int(v)) for (i, n), v in seglog.items()) or '[]'
+    xm = ';'.join('%s:%d' % (enc(n), int(v)) for n, v in exlog.items()) or '[]'
+    req = 'glob %s %s %s %s %s %s' % (cfg, ';'.join(pl) or '[]', sd, lx, sm, xm)
+    return {'result': res, 'request': req, 'scandir_calls': rec.scandir_calls, 'glob_obj': g}
+
+
+def corr_glob(cases, nproc=8):
+    """cases: list of (tree_root, patterns, flags, exclude).  Exact result sequence vs the model."""
+    import_impl()
+    m = Model()
+    reqs, exps, keep = [], [], []
+    errs = collections.Counter()
+    for c in cases:
+        r = run_glob_recorded(c[0], c[1], c[2], c[3])
+        if 'error' in r:
+            errs[r['error']] += 1
+            continue
+        if r['request'] is None:
+            continue
+        reqs.append(r['request'])
+        exps.append('ok ' + (','.join(enc(x) for x in r['result']) if r['result'] else '[]'))
+        keep.append(c)
+    outs = m.run(reqs, nproc=nproc)
+    dis = []
+    nontriv = set()
+    for c, o, e in zip(keep, outs, exps):
+        if o != e:
+            dis.append({'kind': 'glob-walk', 'patterns': c[1], 'flags': flag_names(c[2]), 'exclude': c[3],
+                        'impl': [dec(x) for x in e[3:].split(',')] if e != 'ok []' else [],
+                        'model': ([dec(x) for x in o[3:].split(',')] if o.startswith('ok ') and o != 'ok []' else o)})
+        elif e != 'ok []':
+            nontriv.add((c[0], tuple(c[1]) if isinstance(c[1], list) else c[1], c[2], repr(c[3])))
+    samples = [{'patterns': c[1], 'flags': flag_names(c[2]), 'exclude': c[3], 'result': e[:200]} for c, e in list(zip(keep, exps))[:: max(1, len(keep) // 4)]]
+    return result(len(keep), len(nontriv), dis, samples, {'skipped_errors': dict(errs)})
